@@ -227,8 +227,8 @@ class G:
             es = [(b13(), b13(), self.pick([0, 1, 62, 63, self.r.randrange(64)])) for _ in range(n)]
             return ('sli %d %s' % (n, ' '.join('%d %d %d' % e for e in es))).strip()
         if k == 'rpsi':
-            ln = self.pick([0, 1, 2, 3, 4, 5, 6, 7, 8, 9, 10, 11, 12, self.r.randint(0, 40)])
-            ov = self.r.randint(0, 8) if ln > 0 else 0
+            ln = self.pick([0, 0, 1, 2, 3, 3, 4, 5, 6, 7, 7, 8, 9, 10, 11, 12, self.r.randint(0, 40)])
+            ov = self.pick([0, 0, 1, 4, 7, 8, 8, self.r.randint(0, 8)]) if ln > 0 else 0
             pt = self.pick([0, 1, 96, 126, 127, self.r.randrange(128)])
             return 'rpsi %d %s %d' % (pt, hx(self.rawbytes(ln)), ov)
         return 'pli'
